@@ -117,6 +117,51 @@ fn key_args(flag: &str, keys: &[String]) -> Vec<String> {
 
 type Files = BTreeMap<String, Vec<u8>>;
 
+/// `mlar info` and `info -v` on one archive: format version, layer flags, number of recipients and the
+/// compression rate (sum of the file sizes / sum of the compressed block sizes, the latter taken from an
+/// independent decode of the archive).
+#[allow(clippy::too_many_arguments)]
+fn info_check(cx: &mut Ctx, archive: &str, privkey: Option<&str>, enc: bool, comp: bool, recipients: usize, files: &Files, scale: &str, tag: &str) -> Option<(String, String)> {
+    let fail = |kind: &str, d: String| Some((kind.to_string(), format!("[{tag}] {d}")));
+    let k: Vec<String> = privkey.map(|p| vec![s("-k"), s(p)]).unwrap_or_default();
+    let mut a = vec![s("info"), s("-i"), s(archive)];
+    a.extend(k.clone());
+    let o = cx.run(&a);
+    let want = format!("Format version: 1\nEncryption: {enc}\nCompression: {comp}\n");
+    if !o.status.success() || String::from_utf8_lossy(&o.stdout) != want {
+        return fail("info_differs", format!("mlar {a:?}: status {:?}, stdout {:?}, expected {:?}, stderr {:?}", o.status.code(), String::from_utf8_lossy(&o.stdout), want, tail(&o.stderr)));
+    }
+    let mut a = vec![s("info"), s("-v"), s("-i"), s(archive)];
+    a.extend(k);
+    let o = cx.run(&a);
+    let mut want = s("Format version: 1\n");
+    want.push_str(&format!("Encryption: {enc}\n"));
+    if enc {
+        want.push_str(&format!("  Recipients: {recipients}\n"));
+    }
+    want.push_str(&format!("Compression: {comp}\n"));
+    if comp {
+        let (chunk, block) = if scale == "p" { (128 * 1024, 4 * 1024 * 1024) } else { (crate::scale::CHUNK, crate::scale::BLOCK) };
+        let bytes = std::fs::read(cx.dir.join(archive)).unwrap_or_default();
+        let privs: Vec<x25519_dalek::StaticSecret> = privkey
+            .and_then(|p| std::fs::read(cx.dir.join(p)).ok())
+            .and_then(|b| curve25519_parser::parse_openssl_25519_privkey(&b).ok())
+            .into_iter()
+            .collect();
+        match crate::fmt1::decode(&bytes, &privs, chunk, block) {
+            Ok(d) => {
+                let total: u64 = files.values().map(|v| v.len() as u64).sum();
+                want.push_str(&format!("  Compression rate: {:.2}\n", total as f64 / d.compressed_total as f64));
+            }
+            Err(e) => return fail("archive_not_decodable_by_the_reference_codec", format!("{archive}: {e}")),
+        }
+    }
+    if !o.status.success() || String::from_utf8_lossy(&o.stdout) != want {
+        return fail("info_verbose_differs", format!("mlar {a:?}: status {:?}, stdout {:?}, expected {:?}, stderr {:?}", o.status.code(), String::from_utf8_lossy(&o.stdout), want, tail(&o.stderr)));
+    }
+    None
+}
+
 /// All read routes on one archive. Returns a description of the first disagreement.
 fn verify(cx: &mut Ctx, archive: &str, privkey: Option<&str>, files: &Files, tag: &str) -> Option<(String, String)> {
     // `privkey` may name several candidate key files separated by ',' (each passed with its own -k)
@@ -146,6 +191,17 @@ fn verify(cx: &mut Ctx, archive: &str, privkey: Option<&str>, files: &Files, tag
         let o = cx.run(&a);
         if !o.status.success() || o.stdout != *d {
             return fail("cat_differs", format!("mlar cat {n:?}: status {:?}, {} bytes instead of {}", o.status.code(), o.stdout.len(), d.len()));
+        }
+    }
+    // cat --glob '*': all files in sorted name order (the positional argument takes a single name or pattern)
+    {
+        let mut a = vec![s("cat"), s("-i"), s(archive)];
+        a.extend(k.clone());
+        a.extend([s("--glob"), s("--"), s("*")]);
+        let o = cx.run(&a);
+        let want: Vec<u8> = files.values().flat_map(|d| d.iter().copied()).collect();
+        if !o.status.success() || o.stdout != want {
+            return fail("cat_differs", format!("mlar cat --glob '*': status {:?}, {} bytes instead of {}", o.status.code(), o.stdout.len(), want.len()));
         }
     }
     // extract: whole archive (linear)
@@ -284,6 +340,9 @@ fn exec(j: &Job, rep: &mut Report) -> Option<(Value, String)> {
     if let Some((k, d)) = verify(&mut cx, "a.mla", vk, &files, "create") {
         return fail(&k, d);
     }
+    if let Some((k, d)) = info_check(&mut cx, "a.mla", pk, j.lay.encrypted(), j.lay.compressed(), j.nkeys, &files, j.scale, "create") {
+        return fail(&k, d);
+    }
     // other forms of the same commands: archive written to stdout, file list read from stdin, tar written
     // to stdout, extraction into the default output directory (cwd), repair allowing unauthenticated data
     {
@@ -402,6 +461,9 @@ fn exec(j: &Job, rep: &mut Report) -> Option<(Value, String)> {
             }
             let k2 = if t.encrypted() { Some(privs[1].as_str()) } else { None };
             if let Some((k, d)) = verify(&mut cx, &outp, k2, &files, &format!("{cmd}{ti}")) {
+                return fail(&format!("after_{cmd}:{k}"), d);
+            }
+            if let Some((k, d)) = info_check(&mut cx, &outp, k2, t.encrypted(), t.compressed(), 1, &files, j.scale, &format!("{cmd}{ti}")) {
                 return fail(&format!("after_{cmd}:{k}"), d);
             }
             // chain of length 3: create | convert/repair | the other one
@@ -526,7 +588,7 @@ pub fn run(started: Instant) -> i32 {
         rep,
         Meta {
             level: "exploration",
-            rule: "7 generated file trees (empty files, nested directories, unicode and spaces, sizes around the chunk and block sizes, path lengths 99/100/101/156/260 bytes) x layer options {none, compress, encrypt, both (options in either order), default} x levels x key sets (1 or 2 recipients, read with either; with 2 recipients the readers get two candidate keys, a non-recipient first), with the mlar binary built from the working tree (scaled constants; plus trees with files of 128 KiB+-1 and 4 MiB+-1 on the production-constant binary). Pipeline per job: keygen; create (file list or directory recursion; also to stdout and with the file list on stdin); then list, list -vv (humansize + SHA-256), cat of every file, extract (linear and --glob '*', no extra files), extract of one name, to-tar (file and stdout; entries parsed with the tar crate); extract into the default directory; repair with --allow-unauthenticated-data; convert to each other layer/key choice and repair of the intact archive, each followed by the same readers; create|convert|repair chains; negative runs (wrong key, missing key, key for an unencrypted archive) for list/extract/cat/to-tar/convert(/repair) must exit non-zero and leave no output content. transitions = mlar invocations".to_string(),
+            rule: "7 generated file trees (empty files, nested directories, unicode and spaces, sizes around the chunk and block sizes, path lengths 99/100/101/156/260 bytes) x layer options {none, compress, encrypt, both (options in either order), default} x levels x key sets (1 or 2 recipients, read with either; with 2 recipients the readers get two candidate keys, a non-recipient first), with the mlar binary built from the working tree (scaled constants; plus trees with files of 128 KiB+-1 and 4 MiB+-1 on the production-constant binary). Pipeline per job: keygen; create (file list or directory recursion; also to stdout and with the file list on stdin); then info and info -v (format version, layer flags, recipients, compression rate against an independent decode), list, list -vv (humansize + SHA-256), cat of every file and of all files with --glob '*' (sorted order), extract (linear and --glob '*', no extra files), extract of one name, to-tar (file and stdout; entries parsed with the tar crate); extract into the default directory; repair with --allow-unauthenticated-data; convert to each other layer/key choice and repair of the intact archive, each followed by the same readers; create|convert|repair chains; negative runs (wrong key, missing key, key for an unencrypted archive) for list/extract/cat/to-tar/convert(/repair) must exit non-zero and leave no output content. transitions = mlar invocations".to_string(),
             exhaustive: true,
             bounds: json!({"jobs": js.len()}),
             assumptions: vec!["human-readable sizes are formatted with the same humansize crate as the tool".to_string()],
